@@ -108,6 +108,123 @@ class ClassInfo:
         return '<Class %s>' % self.fq
 
 
+def _unroll_table_loops(fn, consts=None):
+    """`for a, b in ((x1, y1), (x2, y2)): f(a, b)` -> `f(x1, y1)`; `f(x2, y2)`:
+    a loop over a literal table (written inline or kept in a module-level
+    constant assigned once) whose body is one call statement is the
+    table-driven spelling of a run of calls (likewise a body that is one item
+    assignment `d[a] = g(b)`).  The loop variables must not be
+    used after the loop, and at most 32 rows are unrolled."""
+    import copy
+    consts = consts or {}
+
+    def rows_of(it, arity):
+        if isinstance(it, ast.Name) and it.id in consts:
+            it = consts[it.id]
+        if not isinstance(it, (ast.Tuple, ast.List)) or not it.elts or \
+                len(it.elts) > 32:
+            return None
+        rows = []
+        for e in it.elts:
+            if isinstance(e, ast.Starred):
+                return None
+            if arity == 0:
+                rows.append([e])
+            elif isinstance(e, (ast.Tuple, ast.List)) and len(
+                    e.elts) == arity and not any(
+                    isinstance(x, ast.Starred) for x in e.elts):
+                rows.append(list(e.elts))
+            else:
+                return None
+        return rows
+
+    class Sub(ast.NodeTransformer):
+        def __init__(self, m):
+            self.m = m
+
+        def visit_Name(self, n):
+            if isinstance(n.ctx, ast.Load) and n.id in self.m:
+                return copy.deepcopy(self.m[n.id])
+            return n
+
+    for holder in ast.walk(fn):
+        for fld in ('body', 'orelse', 'finalbody'):
+            stmts = getattr(holder, fld, None)
+            if not (isinstance(stmts, list) and stmts and isinstance(
+                    stmts[0], ast.stmt)):
+                continue
+            i = 0
+            while i < len(stmts):
+                lp = stmts[i]
+                i += 1
+                if not (isinstance(lp, ast.For) and not lp.orelse and len(
+                        lp.body) == 1 and (
+                        isinstance(lp.body[0], ast.Expr) and isinstance(
+                            lp.body[0].value, ast.Call) or
+                        isinstance(lp.body[0], ast.Assign) and len(
+                            lp.body[0].targets) == 1 and isinstance(
+                            lp.body[0].targets[0], ast.Subscript))):
+                    continue
+                if isinstance(lp.target, ast.Name):
+                    names, arity = [lp.target.id], 0
+                elif isinstance(lp.target, ast.Tuple) and all(
+                        isinstance(e, ast.Name) for e in lp.target.elts):
+                    names = [e.id for e in lp.target.elts]
+                    arity = len(names)
+                else:
+                    continue
+                rows = rows_of(lp.iter, arity)
+                if rows is None:
+                    continue
+                inside = {id(n) for n in ast.walk(lp)}
+                rebound = set()
+                for other in ast.walk(fn):
+                    if other is not lp and isinstance(other, ast.For):
+                        for n in ast.walk(other):
+                            if isinstance(n, ast.Name) and n.id in {
+                                    x.id for x in ast.walk(other.target)
+                                    if isinstance(x, ast.Name)}:
+                                rebound.add(id(n))
+                # reads after the name has been assigned afresh in the same
+                # block are reads of that new value
+                for nm in names:
+                    for j in range(i, len(stmts)):
+                        st_ = stmts[j]
+                        if isinstance(st_, ast.Assign) and any(
+                                isinstance(t_, ast.Name) and t_.id == nm
+                                for t_ in st_.targets) and not any(
+                                isinstance(x, ast.Name) and x.id == nm
+                                for x in ast.walk(st_.value)):
+                            for later in stmts[j:]:
+                                rebound |= {id(x) for x in ast.walk(later)
+                                            if isinstance(x, ast.Name)
+                                            and x.id == nm}
+                            break
+                        if any(isinstance(x, ast.Name) and x.id == nm
+                               for x in ast.walk(st_)):
+                            break
+                if any(isinstance(n, ast.Name) and n.id in names and
+                       isinstance(n.ctx, ast.Load) and id(n) not in inside and
+                       id(n) not in rebound for n in ast.walk(fn)):
+                    continue
+                if any(isinstance(n, ast.Name) and n.id in names and
+                       isinstance(n.ctx, ast.Store)
+                       for n in ast.walk(lp.body[0])):
+                    continue
+                out = []
+                for r in rows:
+                    st = copy.deepcopy(lp.body[0])
+                    st = Sub(dict(zip(names, r))).visit(st)
+                    ast.copy_location(st, lp)
+                    for n in ast.walk(st):
+                        if hasattr(n, 'lineno'):
+                            n.lineno = getattr(lp, 'lineno', 1)
+                            n.end_lineno = getattr(lp, 'end_lineno', n.lineno)
+                    out.append(st)
+                stmts[i - 1:i] = out
+                i += len(out) - 1
+
+
 def _flags_to_for_else(fn):
     """`found = False` / `for ...: ... found = True; break` / `if not found:
     BODY` -> `for ... else: BODY`: the flag form of for-else.  Applied only
@@ -367,9 +484,13 @@ def _inline_adjacent_temporaries(fn):
                                 not isinstance(a.value, (ast.Yield, ast.YieldFrom,
                                                          ast.Await)) and \
                                 not isinstance(b, SCOPES) and \
-                                not isinstance(b, (ast.For, ast.While, ast.With,
+                                not isinstance(b, (ast.While, ast.With,
                                                    ast.Try)):
-                            uses = [x for x in _stmt_head_nodes(b)
+                            # (the iterable of a `for` is evaluated once, like
+                            # the head of a simple statement)
+                            heads = list(ast.walk(b.iter)) if isinstance(
+                                b, ast.For) else _stmt_head_nodes(b)
+                            uses = [x for x in heads
                                     if isinstance(x, ast.Name) and x.id == t
                                     and isinstance(x.ctx, ast.Load)]
                             if len(uses) == 1:
@@ -460,11 +581,26 @@ class _PolarityNormaliser(ast.NodeTransformer):
             if inner is not None:
                 n.test = inner
                 n.body, n.orelse = n.orelse, n.body
+        # `if a: if b: X` (neither with an else) -> `if a and b: X`
+        while not n.orelse and len(n.body) == 1 and isinstance(
+                n.body[0], ast.If) and not n.body[0].orelse:
+            inner_if = n.body[0]
+            parts = []
+            for t in (n.test, inner_if.test):
+                if isinstance(t, ast.BoolOp) and isinstance(t.op, ast.And):
+                    parts.extend(t.values)
+                else:
+                    parts.append(t)
+            n.test = ast.copy_location(
+                ast.BoolOp(op=ast.And(), values=parts), n.test)
+            n.body = inner_if.body
         return n
 
     # -- single-use temporaries ------------------------------------------------
     def visit_FunctionDef(self, n):
         self.generic_visit(n)
+        _inline_adjacent_temporaries(n)
+        _unroll_table_loops(n, self.table_consts)
         _flags_to_for_else(n)
         _loops_to_comprehensions(n)
         _inline_adjacent_temporaries(n)
@@ -476,6 +612,22 @@ class _PolarityNormaliser(ast.NodeTransformer):
         """`a, b = x, y` -> `a = x` / `b = y` when no target name occurs in the
         values: one spelling for rules that look at single assignments."""
         self.generic_visit(n)
+        # `a, b = map(f, (x, y))` -> `a, b = f(x), f(y)`
+        if len(n.targets) == 1 and isinstance(
+                n.targets[0], (ast.Tuple, ast.List)) and isinstance(
+                n.value, ast.Call) and isinstance(
+                n.value.func, ast.Name) and n.value.func.id == 'map' and len(
+                n.value.args) == 2 and not n.value.keywords and isinstance(
+                n.value.args[0], (ast.Name, ast.Attribute)) and isinstance(
+                n.value.args[1], (ast.Tuple, ast.List)) and len(
+                n.value.args[1].elts) == len(n.targets[0].elts) and not any(
+                isinstance(e, ast.Starred) for e in n.value.args[1].elts):
+            import copy
+            n.value = ast.copy_location(ast.Tuple(elts=[
+                ast.copy_location(ast.Call(
+                    func=copy.deepcopy(n.value.args[0]), args=[e],
+                    keywords=[]), e)
+                for e in n.value.args[1].elts], ctx=ast.Load()), n.value)
         if len(n.targets) == 1 and isinstance(
                 n.targets[0], (ast.Tuple, ast.List)) and isinstance(
                 n.value, (ast.Tuple, ast.List)) and len(
@@ -513,8 +665,27 @@ class _PolarityNormaliser(ast.NodeTransformer):
         return n
 
     dict_rebound = False
+    table_consts = None
 
     def visit_Module(self, n):
+        # module-level constants assigned once from a literal tuple / list
+        seen = {}
+        for st in n.body:
+            if isinstance(st, ast.Assign):
+                for t in st.targets:
+                    for x in ast.walk(t):
+                        if isinstance(x, ast.Name):
+                            seen.setdefault(x.id, []).append(
+                                st.value if t is x else None)
+        stored = {}
+        for x in ast.walk(n):
+            if isinstance(x, ast.Name) and isinstance(x.ctx, (ast.Store,
+                                                            ast.Del)):
+                stored[x.id] = stored.get(x.id, 0) + 1
+        self.table_consts = {
+            k: v[0] for k, v in seen.items()
+            if len(v) == 1 and stored.get(k) == 1 and isinstance(
+                v[0], (ast.Tuple, ast.List))}
         self.dict_rebound = any(
             isinstance(x, ast.Name) and x.id == 'dict' and isinstance(
                 x.ctx, ast.Store) or isinstance(x, ast.arg) and x.arg == 'dict'
@@ -947,6 +1118,14 @@ class Project:
         fi = self.functions.get('%s::%s' % (rel, qualname))
         if fi is None:
             fi = self._moved_func(rel, qualname)
+        if fi is None and '.' not in qualname:
+            # moved to a sibling module and imported back under its name
+            m = self.by_rel.get(rel)
+            imp = m.imports.get(qualname) if m is not None else None
+            if imp and imp[0] == 'obj' and imp[2] == qualname:
+                m2 = self.get_module(imp[1])
+                if m2 is not None and qualname in m2.functions:
+                    fi = m2.functions[qualname]
         if fi is None:
             raise AnalysisError('anchor function %s::%s not found' % (rel, qualname))
         return fi
